@@ -7,6 +7,7 @@ import (
 	"fmt"
 	"hash/fnv"
 	"math"
+	"sort"
 	"strconv"
 	"testing"
 
@@ -135,6 +136,36 @@ func checkConsensus(o *Outcome, text string, tab map[string]*consWant, n int, cu
 	}
 }
 
+// foreignSweep: one tree of the collection gets, in turn, 40 different names for one of its taxa. Each new name sorts exactly
+// where the old one did (every other taxon keeps its rank), so whatever is derived from ranks or from a few bits of a name
+// hash cannot tell the collections apart: only the names can.
+func foreignSweep(t *testing.T, o *Outcome, run *PipeCase, models []*RNode) {
+	tips := models[0].Tips()
+	sort.Strings(tips)
+	src := models[len(models)-1].Newick()
+	for k := 0; k < 40; k++ {
+		victim := tips[k%len(tips)]
+		v := *run
+		v.Feed, v.Recs = "chan", nil
+		for _, m := range models {
+			v.Recs = append(v.Recs, Rec{Text: m.Newick()})
+		}
+		pos := 1 + k%len(v.Recs) // never the first tree: the first tree defines the taxa
+		bad := Rec{Text: replaceTip(src, victim, victim+"!"+strconv.Itoa(k)), Fault: "foreign"}
+		v.Recs = append(v.Recs[:pos:pos], append([]Rec{bad}, v.Recs[pos:]...)...)
+		got := runPipe(t, &v, 1, seqSched(), 4_000_000)
+		o.Steps += int64(got.Sched.Steps)
+		o.Probe("foreign-name-sweep")
+		if !liveness(o, got, "consensus (foreign name sweep)") {
+			return
+		}
+		if got.Err == nil {
+			o.Fail("consensus:fault-accepted:foreign", "tree %d of %d has taxon %q instead of %q (same rank in sorted order) but no error is returned\n  trees %s\n  cons %s", pos, len(v.Recs), victim+"!"+strconv.Itoa(k), victim, recTexts(v.Recs), got.RefOut)
+			return
+		}
+	}
+}
+
 func execC09(t *testing.T, c any, o *Outcome) {
 	pc := c.(*PipeCase)
 	cutoff := pc.Cutoff
@@ -198,6 +229,9 @@ func execC09(t *testing.T, c any, o *Outcome) {
 			if !(len(pc.Recs) == 1 && (fkind == "foreign" || fkind == "missing" || fkind == "extra")) {
 				o.Fail("consensus:fault-accepted:"+fkind, "tree %d of %d is %s but no error is returned\n%s\n  cons %s", fpos, len(pc.Recs), fkind, ctx, got.RefOut)
 			}
+		}
+		if fkind == "foreign" && len(models) > 0 && len(pc.Recs) > 1 && len(models[0].Tips()) <= 12 && h.Sum64()%3 == 0 && len(o.Viols) == 0 {
+			foreignSweep(t, o, &run, models)
 		}
 		return
 	}
